@@ -458,3 +458,326 @@ Proof.
       cbn [is_nil]. rewrite app_length. lia. }
     cbn [pbind app]. rewrite Hc. eexists. reflexivity.
 Qed.
+
+(* ------------------------------------------------------------------ generic *)
+Definition gtext (it : bytes * option bytes) : bytes :=
+  fst it ++ match snd it with Some p => k_sp_colon_sp ++ p | None => [] end.
+Definition gembed (it : bytes * option bytes) : bytes * bytes :=
+  (fst it, match snd it with Some p => p | None => [] end).
+Definition gok (it : bytes * option bytes) : Prop :=
+  plain_name (fst it) = true /\ match snd it with Some p => plain_name p = true | None => True end.
+
+Lemma generic_body n op Z tz Z' f acc l :
+  gok (n, op) -> At (gtext (n, op) ++ Z) l -> Fol Z tz Z' -> tkind tz <> KColon ->
+  generic_items_loop (S f) acc l =
+  (if kind_eqb (tkind tz) KComma
+   then let* (_, l) := next_of_kind KComma (StA Z' tz) in generic_items_loop f (acc ++ [gembed (n, op)]) l
+   else POk (acc ++ [gembed (n, op)]) (StA Z' tz)).
+Proof.
+  intros [Hn Hop] Hat [HlexZ HstopZ] Kc. unfold gtext, gembed in *. cbn [fst snd] in *. rewrite <- app_assoc in Hat.
+  cbn [generic_items_loop].
+  destruct op as [p|].
+  - rewrite <- app_assoc in Hat.
+    rewrite (nok_of _ _ _ (At_la _ _ _ _ Hat (lex_plain_name n (k_sp_colon_sp ++ p ++ Z) Hn eq_refl)) KIdent eq_refl).
+    cbn [pbind tstr].
+    rewrite (lak_St _ _ _ (lex_sp_colon _)). cbn [pbind tkind]. kcomp. rewrite nok_StA by reflexivity. cbn [pbind].
+    assert (H1 : lex_token (32%N :: p ++ Z) = Ok (mkTok KIdent p, Z))
+      by (rewrite lex_token_sp; apply lex_plain_name; assumption).
+    rewrite (nok_St _ _ _ _ H1) by reflexivity. cbn [pbind tstr].
+    rewrite (lak_St _ _ _ HlexZ). reflexivity.
+  - cbn [app] in Hat.
+    rewrite (nok_of _ _ _ (At_la _ _ _ _ Hat (lex_plain_name n _ Hn HstopZ)) KIdent eq_refl). cbn [pbind tstr].
+    rewrite (lak_St _ _ _ HlexZ). cbn [pbind]. rewrite (kind_neq_false _ _ Kc). cbn [pbind].
+    rewrite lak_StA. reflexivity.
+Qed.
+
+Lemma generic_loop items c : items <> [] -> Forall gok items ->
+  forall f acc l,
+    At (join t_comma (map gtext items) ++ show_comment c) l -> length items + 1 <= f ->
+    exists tk rest', generic_items_loop f acc l = POk (acc ++ map gembed items) (StA rest' tk) /\
+                     get_comment (StA rest' tk) = comment_of c.
+Proof.
+  induction items as [|[n op] items IH]; [congruence|]. intros _ HF f acc l Hat Hf.
+  inversion HF as [|? ? Hit HF']; subst.
+  destruct f as [|f]; [cbn in Hf; lia|].
+  destruct items as [|it2 items].
+  - cbn [map join] in Hat.
+    destruct (comment_fol c) as (tk & rest' & Hfol & Hk & Hc).
+    destruct (tail_kind_facts _ Hk) as (_ & Kc & Kcm & _).
+    rewrite (generic_body n op _ tk rest' f acc l Hit Hat Hfol Kc). rewrite (kind_neq_false _ _ Kcm).
+    exists tk, rest'. split; [reflexivity | exact Hc].
+  - cbn [map] in *. rewrite join_cons2 in Hat. rewrite <- !app_assoc in Hat.
+    rewrite (generic_body n op _ _ _ f acc l Hit Hat (fol_comma _) ltac:(discriminate)).
+    cbn [tkind]. kcomp. rewrite nok_StA by reflexivity. cbn [pbind].
+    destruct (IH ltac:(discriminate) HF' f (acc ++ [gembed (n, op)]) _ (At_sp _) ltac:(cbn [length] in *; lia))
+      as (tk & rest' & -> & Hc).
+    exists tk, rest'. rewrite <- app_assoc. split; [reflexivity | exact Hc].
+Qed.
+
+Lemma join_length_ge {A} (g : A -> bytes) sep (l : list A) : length l <= length (join sep (map g l)) + 1 + length l * 0
+                                                              \/ length sep = 0.
+Proof. destruct (length sep) eqn:E; [right; reflexivity|left]. 
+  induction l as [|a [|b l] IH]; cbn [map length join] in *; try lia.
+  rewrite !app_length. rewrite E. cbn [map length] in IH. lia.
+Qed.
+
+Lemma stat_generic items c : doc_stat (DSGeneric items c) = true ->
+  exists l', parse_one_state (fuel_of (show_line (DSGeneric items c))) (St (show_line (DSGeneric items c)))
+             = POk (embed_stat (DSGeneric items c)) l'.
+Proof.
+  cbn [doc_stat]. intros Hd. apply andb_true_iff in Hd as [Hne Hit].
+  unfold show_line. cbn [show_stat embed_stat].
+  change (map (fun it : bytes * option bytes => fst it ++ match snd it with
+                                                         | Some p => k_sp_colon_sp ++ p
+                                                         | None => []
+                                                         end) items) with (map gtext items).
+  change (map (fun it : bytes * option bytes => (fst it, match snd it with Some p => p | None => [] end)) items)
+    with (map gembed items).
+  set (fuel := fuel_of _).
+  unfold parse_one_state. rewrite (lak_St _ _ _ (lex_k_generic _)). cbn [pbind tkind].
+  unfold parse_generic_state. rewrite nok_StA by reflexivity. cbn [pbind].
+  assert (HF : Forall gok items).
+  { apply Forall_forall. intros it Hin. rewrite forallb_forall in Hit. specialize (Hit _ Hin).
+    apply andb_true_iff in Hit as [H1 H2]. split; [exact H1|]. destruct (snd it); [exact H2|exact I]. }
+  destruct (generic_loop items c ltac:(destruct items; [discriminate Hne|discriminate]) HF fuel [] _ (At_sp _))
+    as (tk & rest' & -> & Hc).
+  { subst fuel. rewrite !fuel_of_app. rewrite <- fuel_of_len.
+    destruct (join_length_ge gtext t_comma items) as [H|H]; [|discriminate H]. lia. }
+  cbn [pbind app]. rewrite Hc. eexists. reflexivity.
+Qed.
+
+(* ------------------------------------------------------------------ type *)
+Definition tpre (it : bool * bool * dtype) : bytes :=
+  (if fst (fst it) then k_const else []) ++ (if snd (fst it) then k_enum else []).
+
+(* one iteration of the loop of parserTypeState; T is the text of the type, E what it is read as *)
+Lemma type_body (co en : bool) (T : bytes) (E : atype) (Z : bytes) tz Z' f
+      (acc : list (bool * bool * atype)) l :
+  (exists tk c, lex_token (T ++ Z) = Ok (tk, c) /\ type_start (tkind tk)) ->
+  (forall l1, At (T ++ Z) l1 -> parse_one_type f l1 = POk E (StA Z' tz)) ->
+  At (((if co then k_const else []) ++ (if en then k_enum else [])) ++ T ++ Z) l ->
+  type_items_loop (S f) acc l =
+  (if kind_eqb (tkind tz) KComma
+   then let* (_, l) := next_of_kind KComma (StA Z' tz) in type_items_loop f (acc ++ [(co, en, E)]) l
+   else POk (acc ++ [(co, en, E)]) (StA Z' tz)).
+Proof.
+  intros (tk1 & c1 & Hlex1 & Hts) Hone Hat.
+  destruct (type_start_neq _ Hts) as (_ & _ & _ & _ & E5 & E6 & _).
+  pose proof (kind_neq_false _ _ E5) as N5. pose proof (kind_neq_false _ _ E6) as N6.
+  assert (Hlex1s : lex_token (32%N :: T ++ Z) = Ok (tk1, c1)) by (rewrite lex_token_sp; exact Hlex1).
+  assert (HatA : At (T ++ Z) (StA c1 tk1)) by (eapply la_At; [apply la_StA | exact Hlex1]).
+  cbn [type_items_loop].
+  destruct co, en; cbn [app] in Hat; rewrite <- ?app_assoc in Hat; cbn [app] in Hat.
+  - destruct (lak_At _ _ _ _ Hat (lex_k_const _)) as [-> _]. cbn [pbind tkind]. kcomp.
+    rewrite nok_StA by reflexivity. cbn [pbind].
+    assert (H2 : lex_token (32%N :: k_enum ++ T ++ Z) = Ok (mkTok KEnum [101; 110; 117; 109]%N, 32%N :: T ++ Z))
+      by (rewrite lex_token_sp; apply lex_k_enum).
+    rewrite (lak_St _ _ _ H2). cbn [pbind tkind]. kcomp. rewrite nok_StA by reflexivity. cbn [pbind fst snd].
+    rewrite (Hone _ (At_sp _)). cbn [pbind]. rewrite lak_StA. reflexivity.
+  - destruct (lak_At _ _ _ _ Hat (lex_k_const _)) as [-> _]. cbn [pbind tkind]. kcomp.
+    rewrite nok_StA by reflexivity. cbn [pbind].
+    rewrite (lak_St _ _ _ Hlex1s). cbn [pbind]. rewrite N6. cbn [pbind fst snd].
+    rewrite (Hone _ HatA). cbn [pbind]. rewrite lak_StA. reflexivity.
+  - destruct (lak_At _ _ _ _ Hat (lex_k_enum _)) as [-> _]. cbn [pbind tkind]. kcomp.
+    rewrite lak_StA. cbn [pbind tkind]. kcomp. rewrite nok_StA by reflexivity. cbn [pbind].
+    rewrite (lak_St _ _ _ Hlex1s). cbn [pbind]. rewrite N5. cbn [pbind fst snd].
+    rewrite (Hone _ HatA). cbn [pbind]. rewrite lak_StA. reflexivity.
+  - destruct (lak_At _ _ _ _ Hat Hlex1) as [-> _]. cbn [pbind]. rewrite N5.
+    rewrite lak_StA. cbn [pbind]. rewrite N6. cbn [pbind fst snd].
+    rewrite (Hone _ HatA). cbn [pbind]. rewrite lak_StA. reflexivity.
+Qed.
+
+Definition tmk (it : bool * bool * dtype) (a : atype) : bool * bool * atype := (fst (fst it), snd (fst it), a).
+
+Lemma show_tlist_cons2 {A} (pre : A -> bytes) ty post a b r :
+  show_tlist true pre ty post (a :: b :: r) =
+  pre a ++ show_sub true (ty a) ++ post a ++ t_comma ++ show_tlist true pre ty post (b :: r).
+Proof. reflexivity. Qed.
+
+Lemma show_tlist_length {A} (pre : A -> bytes) ty post (l : list A) :
+  length l <= length (show_tlist true pre ty post l) + 1.
+Proof.
+  induction l as [|a [|b l] IH]; cbn [length show_tlist] in *; try lia.
+  rewrite !app_length. change (length t_comma) with 2. cbn [length show_tlist] in IH. lia.
+Qed.
+
+Lemma type_loop items c : items <> [] -> Forall (fun it => doc_type (snd it) = true) items ->
+  forall f acc l,
+    At (show_tlist true tpre (fun it => snd it) (fun _ => []) items ++ show_comment c) l ->
+    2 * length (show_tlist true tpre (fun it => snd it) (fun _ => []) items) + 19 <= f ->
+    exists tk rest', type_items_loop f acc l
+                     = POk (acc ++ embed_tlist tmk (fun it => snd it) items) (StA rest' tk) /\
+                     get_comment (StA rest' tk) = comment_of c.
+Proof.
+  induction items as [|[[co en] t] items IH]; [congruence|]. intros _ HF f acc l Hat Hf.
+  inversion HF as [|? ? Hdt HF']; subst. cbn [snd] in Hdt.
+  destruct f as [|f]; [lia|].
+  destruct items as [|it2 items].
+  - cbn [show_tlist embed_tlist] in *. unfold tpre in Hat, Hf. cbn [fst snd] in *.
+    rewrite app_nil_r in *. rewrite <- !app_assoc in Hat.
+    rewrite !app_length in Hf.
+    destruct (comment_fol c) as (tk & rest' & Hfol & Hk & Hc).
+    destruct (tail_kind_facts _ Hk) as ((K1 & K2 & K3) & _ & Kcm & _ & Hcp).
+    rewrite (type_body co en (shw t) (embed_one t) (show_comment c) tk rest' f acc l).
+    + rewrite (kind_neq_false _ _ Kcm). exists tk, rest'. split; [reflexivity | exact Hc].
+    + apply first_token_bare; [exact Hdt | apply stop_comment].
+    + intros l1 Hat1. apply (claimC_all t Hdt f l1 _ tk rest' Hat1 Hfol (Hcp t) K1 K2). lia.
+    + rewrite <- !app_assoc. exact Hat.
+  - rewrite show_tlist_cons2 in Hat, Hf. cbn [embed_tlist]. unfold tpre at 1 in Hat. unfold tpre at 1 in Hf.
+    cbn [fst snd] in Hat, Hf.
+    rewrite app_nil_l in Hat, Hf. rewrite <- !app_assoc in Hat. rewrite !app_length in Hf.
+    change (length t_comma) with 2 in Hf.
+    set (more := show_tlist true tpre (fun it : bool * bool * dtype => snd it) (fun _ => []) (it2 :: items)
+                 ++ show_comment c) in *.
+    rewrite (type_body co en (show_sub true t) (embed_sub t) (t_comma ++ more) (mkTok KComma [44%N]) (32%N :: more) f acc l).
+    + cbn [tkind]. kcomp. rewrite nok_StA by reflexivity. cbn [pbind].
+      destruct (IH ltac:(discriminate) HF' f (acc ++ [(co, en, embed_sub t)]) _ (At_sp _) ltac:(lia))
+        as (tk & rest' & -> & Hc).
+      exists tk, rest'. rewrite <- app_assoc. split; [reflexivity | exact Hc].
+    + apply first_token_sub; [exact Hdt | reflexivity].
+    + intros l1 Hat1. apply (sub_one t (claimC_all t Hdt) f l1 _ _ _ Hat1 (fol_comma _) ok_follow_comma). lia.
+    + rewrite <- !app_assoc. exact Hat.
+Qed.
+
+Lemma stat_type items c : doc_stat (DSType items c) = true ->
+  exists l', parse_one_state (fuel_of (show_line (DSType items c))) (St (show_line (DSType items c)))
+             = POk (embed_stat (DSType items c)) l'.
+Proof.
+  cbn [doc_stat]. intros Hd. apply andb_true_iff in Hd as [Hne Hit].
+  unfold show_line. cbn [show_stat embed_stat].
+  change (fun it : bool * bool * dtype =>
+            (if fst (fst it) then k_const else []) ++ (if snd (fst it) then k_enum else [])) with tpre.
+  change (fun (it : bool * bool * dtype) (a : atype) => (fst (fst it), snd (fst it), a)) with tmk.
+  set (fuel := fuel_of _).
+  unfold parse_one_state. rewrite (lak_St _ _ _ (lex_k_type _)). cbn [pbind tkind].
+  unfold parse_type_state. rewrite nok_StA by reflexivity. cbn [pbind].
+  assert (HF : Forall (fun it : bool * bool * dtype => doc_type (snd it) = true) items).
+  { apply Forall_forall. intros it Hin. rewrite forallb_forall in Hit. apply Hit. exact Hin. }
+  destruct (type_loop items c ltac:(destruct items; [discriminate Hne|discriminate]) HF fuel [] _ (At_sp _))
+    as (tk & rest' & -> & Hc).
+  { subst fuel. rewrite !fuel_of_app. pose proof (fuel_of_ge (show_comment c)). lia. }
+  cbn [pbind app]. rewrite Hc. eexists. reflexivity.
+Qed.
+
+(* ------------------------------------------------------------------ return *)
+Lemma return_body (T : bytes) (E : atype) (opt : bool) (Z : bytes) tz Z' f (acc : list (atype * bool)) l :
+  lex_token Z = Ok (tz, Z') -> tkind tz <> KOption ->
+  (forall l1 rest, At (T ++ 63%N :: rest) l1 -> parse_one_type f l1 = POk E (StA rest (mkTok KOption [63%N]))) ->
+  (forall l1, At (T ++ Z) l1 -> parse_one_type f l1 = POk E (StA Z' tz)) ->
+  At (T ++ (if opt then [63%N] else []) ++ Z) l ->
+  return_items_loop (S f) acc l =
+  (if kind_eqb (tkind tz) KComma
+   then let* (_, l) := next_of_kind KComma (StA Z' tz) in return_items_loop f (acc ++ [(E, opt)]) l
+   else POk (acc ++ [(E, opt)]) (StA Z' tz)).
+Proof.
+  intros HlexZ Ko Hopt Hz Hat. cbn [return_items_loop]. destruct opt; cbn [app] in Hat.
+  - rewrite (Hopt _ _ Hat). cbn [pbind]. rewrite lak_StA. cbn [pbind tkind]. kcomp.
+    rewrite ntp_StA. cbn [pbind]. rewrite (lak_St _ _ _ HlexZ). reflexivity.
+  - rewrite (Hz _ Hat). cbn [pbind]. rewrite lak_StA. cbn [pbind]. rewrite (kind_neq_false _ _ Ko). cbn [pbind].
+    rewrite lak_StA. reflexivity.
+Qed.
+
+Notation rpost := (fun it : dtype * bool => if snd it then [63%N] else []).
+Notation rmk := (fun (it : dtype * bool) (a : atype) => (a, snd it)).
+
+Lemma fol_option rest : Fol (63%N :: rest) (mkTok KOption [63%N]) rest.
+Proof. split; reflexivity. Qed.
+Lemma ok_follow_option : ok_follow KOption. Proof. repeat split; discriminate. Qed.
+Lemma cond_prim_option t : cond_prim t KOption.
+Proof. split; [discriminate|]. intros _. repeat split; discriminate. Qed.
+
+Lemma return_loop items c : items <> [] -> Forall (fun it => doc_type (fst it) = true) items ->
+  forall f acc l,
+    At (show_tlist true (fun _ => []) (fun it => fst it) rpost items ++ show_comment c) l ->
+    2 * length (show_tlist true (fun _ => []) (fun it : dtype * bool => fst it) rpost items) + 19 <= f ->
+    exists tk rest', return_items_loop f acc l
+                     = POk (acc ++ embed_tlist rmk (fun it => fst it) items) (StA rest' tk) /\
+                     get_comment (StA rest' tk) = comment_of c.
+Proof.
+  induction items as [|[t opt] items IH]; [congruence|]. intros _ HF f acc l Hat Hf.
+  inversion HF as [|? ? Hdt HF']; subst. cbn [fst] in Hdt.
+  destruct f as [|f]; [lia|].
+  destruct items as [|it2 items].
+  - cbn [show_tlist embed_tlist] in *. cbn [fst snd] in *.
+    rewrite app_nil_l in *. rewrite <- !app_assoc in Hat. rewrite !app_length in Hf.
+    destruct (comment_fol c) as (tk & rest' & [Hlex Hstop] & Hk & Hc).
+    destruct (tail_kind_facts _ Hk) as ((K1 & K2 & K3) & _ & Kcm & Ko & Hcp).
+    rewrite (return_body (shw t) (embed_one t) opt (show_comment c) tk rest' f acc l Hlex Ko).
+    + rewrite (kind_neq_false _ _ Kcm). exists tk, rest'. split; [reflexivity | exact Hc].
+    + intros l1 rest Hat1.
+      apply (claimC_all t Hdt f l1 _ _ _ Hat1 (fol_option rest) (cond_prim_option t)); [discriminate|discriminate|lia].
+    + intros l1 Hat1. apply (claimC_all t Hdt f l1 _ tk rest' Hat1 (conj Hlex Hstop) (Hcp t) K1 K2). lia.
+    + exact Hat.
+  - rewrite show_tlist_cons2 in Hat, Hf. cbn [embed_tlist]. cbn beta in Hat, Hf. cbn [fst snd] in *.
+    rewrite app_nil_l in Hat, Hf. rewrite <- !app_assoc in Hat. rewrite !app_length in Hf.
+    change (length t_comma) with 2 in Hf.
+    set (more := show_tlist true (fun _ => []) (fun it : dtype * bool => fst it) rpost (it2 :: items)
+                 ++ show_comment c) in *.
+    rewrite (return_body (show_sub true t) (embed_sub t) opt (t_comma ++ more) (mkTok KComma [44%N]) (32%N :: more)
+                         f acc l eq_refl ltac:(discriminate)).
+    + cbn [tkind]. kcomp. rewrite nok_StA by reflexivity. cbn [pbind].
+      destruct (IH ltac:(discriminate) HF' f (acc ++ [(embed_sub t, opt)]) _ (At_sp _) ltac:(lia))
+        as (tk & rest' & -> & Hc).
+      exists tk, rest'. rewrite <- app_assoc. split; [reflexivity | exact Hc].
+    + intros l1 rest Hat1.
+      apply (sub_one t (claimC_all t Hdt) f l1 _ _ _ Hat1 (fol_option rest) ok_follow_option). lia.
+    + intros l1 Hat1. apply (sub_one t (claimC_all t Hdt) f l1 _ _ _ Hat1 (fol_comma _) ok_follow_comma). lia.
+    + exact Hat.
+Qed.
+
+Lemma stat_return items c : doc_stat (DSReturn items c) = true ->
+  exists l', parse_one_state (fuel_of (show_line (DSReturn items c))) (St (show_line (DSReturn items c)))
+             = POk (embed_stat (DSReturn items c)) l'.
+Proof.
+  cbn [doc_stat]. intros Hd. apply andb_true_iff in Hd as [Hne Hit].
+  unfold show_line. cbn [show_stat embed_stat].
+  set (fuel := fuel_of _).
+  unfold parse_one_state. rewrite (lak_St _ _ _ (lex_k_return _)). cbn [pbind tkind].
+  unfold parse_return_state. rewrite nok_StA by reflexivity. cbn [pbind].
+  assert (HF : Forall (fun it : dtype * bool => doc_type (fst it) = true) items).
+  { apply Forall_forall. intros it Hin. rewrite forallb_forall in Hit. apply Hit. exact Hin. }
+  destruct (return_loop items c ltac:(destruct items; [discriminate Hne|discriminate]) HF fuel [] _ (At_sp _))
+    as (tk & rest' & -> & Hc).
+  { subst fuel. rewrite !fuel_of_app. pose proof (fuel_of_ge (show_comment c)). lia. }
+  cbn [pbind app]. rewrite Hc. eexists. reflexivity.
+Qed.
+
+(* ------------------------------------------------------------------ all statement forms *)
+Theorem stat_roundtrip : forall s, doc_stat s = true -> enum_with_comment s = false ->
+  ann_parse_line (fuel_of (show_line s)) (show_line s) = Ok (inl (embed_stat s)).
+Proof.
+  intros s Hd He.
+  assert (H : exists l', parse_one_state (fuel_of (show_line s)) (St (show_line s)) = POk (embed_stat s) l').
+  { destruct s.
+    - apply stat_type; exact Hd.
+    - apply stat_alias; exact Hd.
+    - apply stat_class; exact Hd.
+    - apply stat_overload; exact Hd.
+    - apply stat_field; exact Hd.
+    - apply stat_param; exact Hd.
+    - apply stat_return; exact Hd.
+    - apply stat_generic; exact Hd.
+    - apply stat_vararg; exact Hd.
+    - destruct c; [discriminate He|]. apply stat_enum. }
+  destruct H as [l' H]. eapply run_line. exact H.
+Qed.
+
+(* the trailing comment is returned verbatim, whatever its bytes *)
+Definition stat_comment (s : astat) : bytes :=
+  match s with
+  | SType _ c | SAlias _ _ c | SClass _ _ c | SOverload _ c | SField _ _ _ _ c | SParam _ _ _ _ c
+  | SReturn _ c | SGeneric _ c | SVararg _ c | SEnum _ c => c
+  | SNotValid => []
+  end.
+Definition dstat_comment (s : dstat) : option bytes :=
+  match s with
+  | DSType _ c | DSAlias _ _ c | DSClass _ _ c | DSOverload _ _ c | DSField _ _ _ _ c | DSParam _ _ _ _ c
+  | DSReturn _ c | DSGeneric _ c | DSVararg _ c | DSEnum _ c => c
+  end.
+
+Theorem comment_kept : forall s x, doc_stat s = true -> enum_with_comment s = false -> dstat_comment s = Some x ->
+  exists a, ann_parse_line (fuel_of (show_line s)) (show_line s) = Ok (inl a) /\ stat_comment a = x.
+Proof.
+  intros s x Hd He Hc. exists (embed_stat s). split; [apply stat_roundtrip; assumption|].
+  destruct s; cbn in Hc |- *; subst; reflexivity.
+Qed.
